@@ -16,7 +16,8 @@ RULE = ("Tables of 1-3 fields with domains of 1-4 mixed hashables (ints, strings
         "mirrored on a numpy model; classes Table, ProbabilityTable, StateTable, StateActionTable, "
         "StateActionNextStateTable, TabularPolicy. Non-trivial: >=2 fields and a collision-prone outer domain (full "
         "keys) or >=3 navigation steps (navigation); distinct by spec hash."
-        ' Also: domaintuple keys, inner domains that are re-ordered subsets of the outer one, over-long keys containing an ellipsis.')
+        ' Also: domaintuple keys, inner domains that are re-ordered subsets of the outer one, over-long keys containing an ellipsis.'
+        " float32 / int64 / longdouble tables, cells compared in the table's own number type.")
 ASSUMPTIONS = ["only the selector forms the statement names are generated (no tuple multi-selectors inside a key)",
                "for a foreign key get(k, default) may return the default or raise; only 'never a cell' is asserted"]
 
